@@ -93,7 +93,8 @@ def run_confusion(spec, rec, lib):
         rng.shuffle(U)
         ks = U[: rng.randint(1, 3)]
         t = rng.randint(1, len(ks))
-        X, Y = rng.choice([("root", "key_mgr"), ("key_mgr", "root")])
+        X, Y = rng.choice([("root", "key_mgr"), ("key_mgr", "root"), ("root", ""), ("key_mgr", ""), ("root", "pkg_mgr"), ("key_mgr", "r\u00f6le"),
+                           ("root", "root.json"), ("key_mgr", "Key_mgr"), ("root", " "), ("key_mgr", "0"), ("root", "None")])
         # trusted delegates BOTH X and Y to the same keys; the untrusted metadata declares X, is presented for Y
         dels = {Y: gmd.delegation(ks, t), X: gmd.delegation(ks, t)}
         if rng.random() < 0.3:
